@@ -1,4 +1,5 @@
 """C09 - sample-table queries agree with the ISO 14496-12 table semantics (SampleTables.tla)."""
+import os
 import core
 
 
@@ -12,12 +13,21 @@ def run(ctx):
             raise core.Machinery("export count %d does not match answered states (%d distinct)" % (len(r.exported), r.distinct))
         inp = ctx.write_ndjson("st_%s.ndjson" % fam, r.exported)
         core.absorb(ctx, ctx.harness(["c09-replay", "-in", inp]))
-    ctx.cov["bounds"] = {"N": "all consistent tables for 1..%d samples (chunk/ctts families: %d)" % ((5, 5) if q else (7, 6)),
+    # code -> spec: the same queries on the tables of real progressive files, validated against SampleTablesTrace.tla
+    tr = os.path.join(ctx.specdir, "trace.ndjson")
+    st = core.absorb(ctx, ctx.harness(["c09-trace", "-trace", tr, "-per", "40" if q else "120"], timeout=3000))
+    if st["extra"]["tracks"] < 4:
+        raise core.Machinery("only %d corpus tracks traced" % st["extra"]["tracks"])
+    ctx.validate_traces_all("SampleTablesTrace", "SampleTablesTrace.cfg", tr, max_rejects=6, heap="12g", stack="256m", timeout=3000,
+                            keyfn=lambda info: "corpus-query/%s" % ((info.get("event") or {}).get("q", "reset")),
+                            groupfn=lambda h: str(h.get("obj", "")),
+                            what="SampleTablesTrace.tla rejected the answer to a sample-table query on a corpus file")
+    ctx.cov["bounds"] = {"corpus_traces": "%d tracks of real progressive files, %d query events (decode time, duration, composition offset, size, chunk, sync, sample at time, byte ranges)" % (st["extra"]["tracks"], st["extra"]["events"]),
+                         "N": "all consistent tables for 1..%d samples (chunk/ctts families: %d)" % ((5, 5) if q else (7, 6)),
                          "queries": "every sample number, every interval 1<=a<=b<=N, every time 0..T+1, work buffers {0,1,3,64}",
                          "decode_paths": ["DecodeBox", "DecodeBoxSR", "API-built (AddEntry/AddSampleCountsAndOffset)", "DecodeFile", "DecodeFile lazy", "DecodeFileSR"]}
     ctx.cov["rule"] = ("one behaviour per consistent table set enumerated by SampleTables.tla (Init = all tables), each replayed with all "
                        "queries; non-trivial = tables accepted by the real decoder and every query compared; distinct by table content")
-    ctx.cov["traces_validated_against_impl"] = 0
     ctx.assumptions += ["GetSampleNrAtTime: N+1 stands for 'inside the last sample' (documented by the repository's own unit test); t = total duration without a zero-length last sample is not pinned",
                         "sample_depends_on is not pinned when no sdtp box is present"]
     return ctx.finish("model_checking", exhaustive=True)
